@@ -9,6 +9,7 @@ Two kinds of jobs (assume/guarantee):
 """
 import sys, time, os
 import numpy as np
+from fractions import Fraction
 from symgrid import dag, poly, smt, sym, npproxy, harness
 from symgrid.sym import Engine, Sym, real, K, f_and, f_or, f_not, cmp, node_of, TRUE
 from symgrid.harness import Job, Ctx
@@ -323,8 +324,60 @@ def job_contract_endnode(ctx: Ctx, cfg):
         ctx.eq("deriv(-1) == d transform/dx at x = -1 (Jacobian for a node on the closed end point)", d_end, Sym(want), p.pc, replay=replay, key=key)
 
 
+def job_transported(ctx: Ctx, n):
+    """exactness is transported: a rule ASSUMED exact to degree 2n-1 on [-1,1] (moment equations as assumptions), mapped linearly to [a,b]
+    by the real LinearFiniteRTransform.transform_1d_grid, integrates every monomial of degree <= 2n-1 over [a,b] exactly (symbolic a < b)."""
+    rt, bg = _mods()
+    npproxy.install(rt)
+    npproxy.install(bg)
+    e = ctx.engine
+    ctx.encoded(rt.LinearFiniteRTransform, rt.BaseTransform.transform_1d_grid)
+    xs = [real(f"x{i}") for i in range(n)]
+    ws = [real(f"w{i}") for i in range(n)]
+    a, b = real("a"), real("b")
+    e.assume(a < b)
+    for i in range(n):
+        e.assume(xs[i] > -1, xs[i] < 1)
+        if i:
+            e.assume(xs[i] > xs[i - 1])
+    deg = 2 * n - 1
+    for k in range(deg + 1):
+        mom = K(0)
+        for i in range(n):
+            mom = mom + ws[i] * (xs[i] ** k if k else 1)
+        e.assume(mom == (K(Fraction(2, k + 1)) if k % 2 == 0 else K(0)))
+    key = "transported-exactness"
+    ctx.bounds.update(dict(nodes=n, degree=deg, interval="symbolic a < b"))
+
+    def replay(m):
+        with C03.unpatched(rt, bg):
+            from grid.onedgrid import GaussLegendre
+            av, bv = float(m.get("a", 0.5)), float(m.get("b", 3.0))
+            g = rt.LinearFiniteRTransform(av, bv).transform_1d_grid(GaussLegendre(n))
+            bad = {}
+            for k in range(deg + 1):
+                got = float(np.sum(g.weights * g.points ** k))
+                want = (bv ** (k + 1) - av ** (k + 1)) / (k + 1)
+                if abs(got - want) > 1e-9 * max(1, abs(want)):
+                    bad[k] = dict(quadrature=got, exact=want)
+            return bool(bad), dict(a=av, b=bv, nodes=n, wrong_monomials=bad)
+    for p in e.run(lambda: rt.LinearFiniteRTransform(a, b).transform_1d_grid(bg.OneDGrid(arr(xs), arr(ws), (-1, 1)))):
+        ctx.paths += 1
+        if p.exc is not None:
+            ctx.fail("transform_1d_grid returns", f"{type(p.exc).__name__}: {p.exc}", key=key, replay=replay, model=ctx.model_for(p.pc) or {})
+            continue
+        if ctx.twin(p.pc) != "sat":
+            ctx.note("reachability twin not sat (moment equations are satisfiable by the Gauss-Legendre rule; z3 did not exhibit it in time)")
+        g = p.result
+        for k in range(deg + 1):
+            quad = K(0)
+            for i in range(n):
+                quad = quad + g.weights[i] * (g.points[i] ** k if k else 1)
+            ctx.eq(f"sum_i w'_i r_i^{k} == (b^{k + 1} - a^{k + 1})/{k + 1}", quad, (b ** (k + 1) - a ** (k + 1)) / (k + 1), p.pc, replay=replay, key=key)
+
+
 def jobs(tier):
-    js = []
+    js = [Job("transported/2", job_transported, 2)]          # n = 3 (degree 5): z3 returns unknown after 14 min - bound stated
     for n in ((1, 2, 3) if tier == "quick" else (1, 2, 3, 4)):
         for direction in ("inc", "dec"):
             for infend in (None, "trim", "raw"):
@@ -346,7 +399,7 @@ def main():
         bounds=dict(nodes="1..3 (quick) / 1..4 (thorough) symbolic nodes and weights in a symbolic sub-interval [lo,hi] of the transform's domain",
                     transform="abstract strictly monotone T (both directions; finite, trimmed-infinite and infinite image of the singular end point) + contract check for all 12 classes, "
                               "integer exponents <= 4 (quick) / 6 (thorough)", integrand="uninterpreted function g"),
-        outside=["transported exactness with real Gauss-Legendre nodes (LAPACK eigenvalues, see C01)", "images beyond the value 1e16 that stands in for infinity (nodes within ~1e-16 of the singular end point)",
+        outside=["transported exactness with the real Gauss-Legendre node values (LAPACK eigenvalues, see C01): the rule's exactness on [-1,1] is an assumption of the transported/* jobs", "images beyond the value 1e16 that stands in for infinity (nodes within ~1e-16 of the singular end point)",
                  "half-line domains with the concrete end point +inf", "IEEE rounding"],
         assumptions=["wiring jobs: T is any strictly monotone map with T' of matching strict sign and |T(x)| < 1e16 on the evaluated points; contract jobs discharge this for each class of rtransform.py",
                      "denominators of executed expressions non-zero", "exp/log axioms of symgrid/smt.py"])
